@@ -1,8 +1,8 @@
 """C19 — the transposition table never confuses positions: structural clauses C19-KEY, C19-POLICY, C19-IDX,
-C19-CLEAR, C19-ZERO, C19-GEN, C19-WRITERS, C19-PREF (DESIGN.md §3)."""
+C19-CLEAR, C19-ZERO, C19-GEN, C19-WRITERS, C19-PREF, C19-FILLIND (DESIGN.md §3, §9.2)."""
 import itertools
 
-from facts import (switch_edge_conds, norm, show, walk, strip_refs, is_call_to, callee_name, find_calls, guard_conditions,
+from facts import (decision_paths, switch_edge_conds, norm, show, walk, strip_refs, is_call_to, callee_name, find_calls, guard_conditions,
                    option_guard, place_fields, deep_strip, cmp_op)
 
 EXPLANATION = (
@@ -31,6 +31,108 @@ def run(fx, rep, tier):
     rule_gen(fx, rep)
     rule_writers(fx, rep)
     rule_pref(fx, rep)
+    rule_fillind(fx, rep)
+
+
+def fill_eval(e, occ, ln):
+    """numeric value of the fill-indicator formula for occupied = occ and data.len() = ln (ints and floats); None if unknown shape"""
+    e = deep_strip(e) if not (isinstance(e, tuple) and e and e[0] == "cast") else e
+    if not isinstance(e, tuple) or not e:
+        return None
+    if e[0] == "const" and isinstance(e[1], (int, float)):
+        return e[1]
+    if e[0] == "field" and e[2] == "occupied" and self_field(e, "occupied"):
+        return occ
+    if e[0] == "field" and e[2] == "0" and isinstance(e[1], tuple) and e[1] and e[1][0] == "binop":
+        return fill_eval(e[1], occ, ln)
+    if e[0] == "call" and isinstance(e[1], str) and e[1].endswith("Vec::len") and self_field(e[2][0], "data"):
+        return ln
+    if e[0] == "cast":
+        v = fill_eval(e[1], occ, ln)
+        if v is None:
+            return None
+        to = str(e[2])
+        if to in ("f32", "f64"):
+            return float(v)
+        if v != v:  # NaN as integer is 0 in Rust
+            return 0
+        return int(v)
+    if e[0] == "binop":
+        a, b = fill_eval(e[2], occ, ln), fill_eval(e[3], occ, ln)
+        if a is None or b is None:
+            return None
+        op = e[1].replace("WithOverflow", "")
+        try:
+            if op == "Mul":
+                return a * b
+            if op == "Div":
+                if isinstance(a, float) or isinstance(b, float):
+                    return a / b if b else float("nan")
+                return a // b if b else None
+            if op == "Add":
+                return a + b
+            if op == "Sub":
+                return a - b
+        except Exception:
+            return None
+    return None
+
+
+def rule_fillind(fx, rep):
+    """`hashfull` is the permille of occupied slots: occupancy() evaluates to 1000 * occupied / data.len() (rounded down, +-1 for
+    float rounding) on sample values, and the value reported as hashfull is occupancy() of the table being searched."""
+    oc = fx.one("TranspositionTable::occupancy")
+    paths = [p for p in decision_paths(oc, 16) if p[1] is not None]
+    ok = True
+    n = 0
+    main = [p for p in paths if not p[0]] or paths[-1:]
+    if len(paths) == 0 or len(paths) > 3:
+        rep.notes.append("C19-FILLIND: occupancy() is not a closed formula; clause not decided")
+        rep.rule("C19-FILLIND", 0, 0, True, "not decided")
+        return
+    e = main[0][1]
+    samples = [(0, 7), (3, 7), (7, 7), (1, 3), (500, 1000), (999, 1000), (1, 16777216), (8388608, 16777216), (33554432, 33554432)]
+    vals = [(o, l, fill_eval(e, o, l)) for o, l in samples]
+    other = sorted({x[2] for x in walk(e) if isinstance(x, tuple) and len(x) == 3 and x[0] == "field" and isinstance(x[2], str) and not x[2].isdigit() and
+                    x[2] not in ("occupied", "data") and deep_strip(x[1])[:2] == ("arg", 1)})
+    if other:
+        rep.obligation(False)
+        rep.violation("C19-FILLIND", "C19-FILLIND/formula", f"occupancy() is `{show(e)[:120]}`: it depends on {other}, not only on the number of occupied slots and the number of slots", {"fn": oc.name, "file": oc.file, "line": oc.line})
+        rep.rule("C19-FILLIND", 1, 1, False, "fill indicator")
+        return
+    if any(v is None for _, _, v in vals):
+        rep.notes.append(f"C19-FILLIND: occupancy() formula `{show(e)[:100]}` not evaluable; clause not decided")
+        rep.rule("C19-FILLIND", 0, 0, True, "not decided")
+        return
+    n += 1
+    good = all(abs(v - (1000 * o) // l) <= 1 for o, l, v in vals)
+    rep.obligation(good)
+    rep.sample({"rule": "C19-FILLIND", "formula": show(e)[:160], "samples": [(o, l, v) for o, l, v in vals[:5]]})
+    if not good:
+        ok = False
+        wrong = [(o, l, v, (1000 * o) // l) for o, l, v in vals if abs(v - (1000 * o) // l) > 1][:3]
+        rep.violation("C19-FILLIND", "C19-FILLIND/formula", f"occupancy() is `{show(e)[:120]}`: for (occupied, slots) it gives {[(o, l, v) for o, l, v, w in wrong]}, the permille of occupied slots is {[w for *_, w in wrong]}",
+                      {"fn": oc.name, "file": oc.file, "line": oc.line})
+    # reported as hashfull
+    n += 1
+    good = False
+    for b in fx.fn_bodies():
+        if "::tests::" in b.name or not norm(b.name).startswith("engine::search"):
+            continue
+        for bb, j, st in b.stmts():
+            rv = st.get("rv")
+            if rv and rv["k"] == "agg" and rv.get("agg") == "adt" and norm(rv["adt"]).endswith("search::SearchInfo"):
+                m = dict(zip(rv["fields"], rv["ops"]))
+                if "hashfull" in m:
+                    he = b.expr(m["hashfull"], expand_named=True, at=bb)
+                    if find_calls(he, "TranspositionTable::occupancy"):
+                        good = True
+                    else:
+                        good = False
+                        ok = False
+                        rep.violation("C19-FILLIND", f"C19-FILLIND/report/{norm(b.name).split('::')[-1]}", f"`{b.name}` reports hashfull = `{show(he)[:80]}`, not the table's occupancy()", {"fn": b.name, "file": b.file, "line": st.get("line")})
+    rep.obligation(good)
+    rep.rule("C19-FILLIND", n, 2, ok, "fill indicator = permille of occupied slots, reported as hashfull")
 
 
 def self_field(e, name):
@@ -586,6 +688,10 @@ def rule_pref(fx, rep):
 TTF = "src/engine/transposition_table.rs"
 STT = "src/engine/search/transposition.rs"
 MUTANTS = [
+    {"name": "hashfull reported in percent", "expect": "C19-FILLIND/formula",
+     "edits": [(TTF, "        let permille = decimal * 1000.0;", "        let permille = decimal * 100.0;")]},
+    {"name": "hashfull measured against the size in megabytes", "expect": "C19-FILLIND/formula",
+     "edits": [(TTF, "        let decimal = self.occupied as f32 / self.data.len() as f32;", "        let decimal = self.occupied as f32 / self.size as f32;")]},
     {"name": "probe without key comparison", "expect": "C19-KEY",
      "edits": [(TTF, "                if entry.key == *key {\n                    return Some(&entry.data);\n                }", "                return Some(&entry.data);")]},
     {"name": "probe compares only the low 32 bits", "expect": "C19-KEY",
